@@ -2,25 +2,18 @@
   Model of lib/gnu_gama/ellipsoid.{h,cpp} (class `GNU_gama::Ellipsoid`) and of
   `GNU_gama::set(Ellipsoid*, gama_ellipsoid)` over the regenerated table
   (Gama/Gen/Ellipsoids.lean).  Core Lean only; same operations in the same order.
+  Every function here that transcribes a member function of the class is proved equal to its regenerated
+  counterpart `Gen.Ell.*` (Gen/EllipsoidExpr.lean, rewritten from ellipsoid.{h,cpp} on every run) in
+  Lemmas/GeoGenTie.lean.
 -/
 import Gama.Model.GeoScalar
+import Gama.Model.EllipsoidData
 import Gama.Gen.Ellipsoids
 import Gama.Gen.GeoVariants
 namespace Gama
 open Scalar Transc
 
-/-- private data members of `class Ellipsoid` -/
-structure Ellipsoid (K : Type) where
-  A : K
-  B : K
-  ff : K
-  n : K
-  e2 : K
-  e22 : K
-  Ime2 : K
-  Ipe22 : K
-  AIme2 : K
-  AB : K
+/- `structure Ellipsoid` (the private data members): Model/EllipsoidData.lean -/
 
 namespace Ellipsoid
 variable {K : Type} [Scalar K]
@@ -147,6 +140,9 @@ def heightOf (e : Ellipsoid K) (x z b : K) : K :=
 /-- `M_PI/2` -/
 def halfPi : K := (pi : K) / Scalar.ofNat 2
 
+/-- `-M_PI/2` as C parses it: `(-M_PI)/2` -/
+def negHalfPi : K := (-(pi : K)) / Scalar.ofNat 2
+
 /-- `Ellipsoid::xyz2blh`; result `(b, l, h)` -/
 def xyz2blhWith (clamp : Bool) (e : Ellipsoid K) (x y z : K) : K × K × K :=
   let l := atan2 y x
@@ -156,7 +152,7 @@ def xyz2blhWith (clamp : Bool) (e : Ellipsoid K) (x y z : K) : K × K × K :=
       let b : K := halfPi
       (b, 0, z - e.Ime2 * e.N b)
     else
-      let b : K := - halfPi
+      let b : K := negHalfPi
       (b, 0, -z - e.Ime2 * e.N b)
   | some x =>
     let b := e.bowring1 x z
